@@ -5,6 +5,7 @@ use serde_json::json;
 use crate::conc::{run_conc, ConcScenario, Op};
 use crate::mworld::{HookCfg, Out, PoolCfg};
 use crate::seq::{run_seq, SeqScenario};
+use crate::uworld::{run_uconc, run_useq, UBuild, UOp, UScenario, USeqScenario};
 
 fn get() -> Op {
     Op::Get { nb: false, cancel: true }
@@ -406,6 +407,53 @@ pub fn c11_scenarios(tier: Tier) -> Vec<Scenario> {
     v
 }
 
+// ---------------------------------------------------------------- C05 / C12 (unmanaged)
+
+fn uconc(name: &str, about: &str, p: u32, f: u32, build: UBuild, actors: Vec<Vec<UOp>>) -> Scenario {
+    let paid = actors.len() >= 3;
+    let sc = UScenario { build, actors, free_boundaries: !paid, cancels: true };
+    let about = if paid { format!("{} [switches at operation boundaries count as preemptions]", about) } else { about.to_string() };
+    Scenario::new(name, &about, p, f, move || run_uconc(&sc))
+}
+
+fn useq(name: &str, about: &str, f: u32, sc: USeqScenario) -> Scenario {
+    Scenario::new(name, about, 0, f, move || run_useq(&sc))
+}
+
+pub fn unmanaged_scenarios(tier: Tier, with_close: bool) -> Vec<Scenario> {
+    let b = bounds(tier);
+    let p = b.p + 1;
+    let f = 1;
+    let g = || UOp::Get { cancel: true };
+    let a = || UOp::Add { cancel: true };
+    let mut v = Vec::new();
+    if !with_close {
+        v.push(uconc("add-vs-get/new1", "add() racing with get(): object pushed before its permit is added", p, f, UBuild::New(1), vec![vec![a(), UOp::TryAdd], vec![g(), UOp::Release]]));
+        v.push(uconc("return-vs-get/vec1", "an object is returned while another caller waits for it", p, f, UBuild::FromVec(1), vec![vec![g(), UOp::Release], vec![g(), UOp::Release]]));
+        v.push(uconc("take-vs-add-waiting/vec1", "take() frees a slot while add() waits for one", p, f, UBuild::FromVec(1), vec![vec![g(), UOp::Take], vec![a(), UOp::TryAdd]]));
+        v.push(uconc("try_add-at-limit/cfg1", "try_add at the limit racing with remove", p, f, UBuild::FromConfig(1), vec![vec![UOp::TryAdd, UOp::TryAdd], vec![UOp::Remove, UOp::TryRemove]]));
+        v.push(uconc("remove-frees-add/new1", "remove() makes room for a waiting add()", p, f, UBuild::New(1), vec![vec![a(), a()], vec![UOp::Remove, UOp::Status]]));
+        v.push(uconc("two-getters-one-object/new2", "two getters, one adder", 2, f, UBuild::New(2), vec![vec![g(), UOp::Release], vec![g(), UOp::Take], vec![a(), a()]]));
+        v.push(uconc("cancel-waiting-get-and-add/vec1", "waiting get() and add() calls are abandoned while returns and takes happen", p, 2, UBuild::FromVec(1), vec![vec![g(), UOp::Release, a()], vec![g(), UOp::Take]]));
+        v.push(uconc("zero-size/new0", "max_size 0: add waits forever, try_add reports Timeout", p, f, UBuild::New(0), vec![vec![UOp::TryAdd, a()], vec![UOp::TryGet, UOp::TimeoutGet0]]));
+        v.push(uconc("timeout0-vs-return/vec2", "timeout_get(0) and try_get racing with returns", p, f, UBuild::FromVec(2), vec![vec![UOp::TimeoutGet0, UOp::TryGet, UOp::Release, UOp::Release], vec![g(), UOp::Release]]));
+        for (name, build) in [("new2", UBuild::New(2)), ("vec2", UBuild::FromVec(2)), ("cfg1", UBuild::FromConfig(1))] {
+            v.push(useq(&format!("histories/{}", name), "every history of get / try_get / timeout_get(0) / add / try_add / remove / try_remove / take / return with cancellation of waiting get() and add()", if b.thorough { 2 } else { 1 }, USeqScenario { build, depth: if b.thorough { 8 } else { 6 }, max_tasks: 2, close: false, cancel: true }));
+        }
+    } else {
+        v.push(uconc("close-vs-get/vec1", "close() clears the queue between a getter's permit and its pop", p, f, UBuild::FromVec(1), vec![vec![UOp::TryGet, UOp::Release], vec![UOp::Close]]));
+        v.push(uconc("close-vs-blocking-get/vec1", "close() vs a blocking get and a return", p, f, UBuild::FromVec(1), vec![vec![g(), UOp::Release, g()], vec![UOp::Close, UOp::TryGet]]));
+        v.push(uconc("close-vs-add/new1", "close() vs add()/try_add(): the object must not stay in the closed pool", p, f, UBuild::New(1), vec![vec![a(), UOp::TryAdd], vec![UOp::Close, UOp::TryAdd]]));
+        v.push(uconc("close-vs-waiting-add/vec1", "close() while add() waits for a slot and a getter holds the object", p, f, UBuild::FromVec(1), vec![vec![g(), UOp::Release], vec![a()], vec![UOp::Close]]));
+        v.push(uconc("close-vs-take-return/vec2", "close() vs take and return", p, f, UBuild::FromVec(2), vec![vec![UOp::TryGet, UOp::Take, UOp::TryGet, UOp::Release], vec![UOp::Close, UOp::Status]]));
+        v.push(uconc("close-vs-remove/vec1", "close() vs remove()/try_remove()/timeout_get(0)", p, f, UBuild::FromVec(1), vec![vec![UOp::TryRemove, UOp::TimeoutGet0], vec![UOp::Close, UOp::Close]]));
+        for (name, build) in [("new1", UBuild::New(1)), ("vec2", UBuild::FromVec(2))] {
+            v.push(useq(&format!("close-histories/{}", name), "close() at every position of every history of unmanaged pool operations", if b.thorough { 2 } else { 1 }, USeqScenario { build, depth: if b.thorough { 8 } else { 6 }, max_tasks: 2, close: true, cancel: true }));
+        }
+    }
+    v
+}
+
 pub fn spec_for(prop: &str, tier: Tier) -> Option<CheckSpec> {
     let assumptions = vec![
         "sequentially consistent interleavings only (Relaxed atomics are explored as SC)".to_string(),
@@ -428,6 +476,8 @@ pub fn spec_for(prop: &str, tier: Tier) -> Option<CheckSpec> {
         "C08" => c08_scenarios(tier),
         "C09" => c09_scenarios(tier),
         "C11" => c11_scenarios(tier),
+        "C05" => unmanaged_scenarios(tier, false),
+        "C12" => unmanaged_scenarios(tier, true),
         _ => return None,
     };
     Some(CheckSpec {
